@@ -8,6 +8,39 @@ import os
 ROOT = os.path.dirname(os.path.dirname(os.path.abspath(__file__)))
 
 CHECKS = {
+    "C12": dict(
+        category="model_checking",
+        technique="explicit-state breadth-first search over texts ('%import' / section-use sequences, state = reference "
+                  "container state + imports seen) and exhaustive enumeration of load histories against one schema "
+                  "object, for every implements/extends combination of a schema family with generated component "
+                  "packages; every load compared with a reference admission model and a structural schema digest",
+        text="Schemas: abstract types a (and b) x 2..3 (quick) / 4 (thorough) concrete types, each implementing none / a "
+             "/ b and extending none / any earlier one, in every combination, plus variants that import a package at "
+             "schema level.  Packages: two adding implementers (one with an extender of an implementer), one defining "
+             "another package's type name differently, one needing an absent abstract type; a package without "
+             "component, a plain module, a missing name.  Texts: all event sequences to depth 4-5; histories: all "
+             "sequences of <= 2-4 loads of 8 representative texts.  Outcome == reference (admission set = declared "
+             "implementers + imported earlier in THIS load; import idempotent; non-components refused); digest of the "
+             "schema (implementer tables, type table, children, defaults, components) unchanged.",
+        note="Known finding (findings.d/C12.json): %import leaks implementers into the application schema's abstract "
+             "types; follow-on outcome differences are attributed only when the failing text uses a type name imported "
+             "by an earlier load.  Trusted: vz/ref/match.py, schema_digest().",
+        design="DESIGN.md section 3, C12", engine="E2 bfs"),
+    "C13": dict(
+        category="model_checking",
+        technique="exhaustive enumeration of all operation sequences up to depth 4/5 on one schema object plus an "
+                  "explicit-state breadth-first search to depth 8 with state = structural digest of the schema; "
+                  "differential oracle (same operation on a fresh schema) and digest invariant on every step",
+        text="15 operations: valid loads (defaults only / everything supplied), invalid loads with the fault at the "
+             "syntax, matching, key-conversion, value-conversion, default-vs-value, section-datatype and top-level "
+             "finish stage, loads around '%import' (two packages defining one type name differently), loads with "
+             "convertible / unconvertible overrides, mutation of every list/dict reachable from the last result.  Each "
+             "step's outcome == outcome on a freshly loaded schema; schema digest (types, implementers, children, key "
+             "and attribute maps, default stores incl. raw defaults, components, registry) unchanged.  If every "
+             "operation maps the start state to itself the BFS closes after one level and longer sequences are covered "
+             "by induction on the digest; the explicit sweep guards the digest's completeness.",
+        note="Known findings (findings.d/C13.json): the C12 import leak and its follow-on.  Trusted: schema_digest().",
+        design="DESIGN.md section 3, C13", engine="E2 bfs"),
     "C07": dict(
         category="model_checking",
         technique="deviation-bounded exhaustive exploration: every single (thorough: double) character-, token- and "
